@@ -461,31 +461,41 @@ def r_commit_rule(ctx):
             ctx.ok(inst, f.loc(st), 'candidate accepted only behind majority test and entry-term == currentTerm (%d defining site(s))' % n_checked)
         elif not n_checked:
             ctx.unproven(inst, f.loc(st), 'no accepting assignment of the candidate found')
-    # counting loop compares matchIndex[v] >= candidate
+    # counting condition compares matchIndex[v] >= candidate
+    from .election import _counter_info
     for mf, cmpn, a, counter, th, lc in majority_sites(ctx):
         if mf is not f or not isinstance(counter, ast.Name):
             continue
-        for loop in [x for x in U.walk_no_nested(f.node) if isinstance(x, ast.For)]:
-            for test in [x for x in ast.walk(loop) if isinstance(x, ast.If)]:
-                incs = [y for y in ast.walk(test) if isinstance(y, ast.AugAssign) and isinstance(y.target, ast.Name) and y.target.id == counter.id]
-                if not incs or loop.lineno > cmpn.lineno:
-                    continue
-                cond = test.test
-                if not any(P.self_attr(s.value, f.self_name) == R.matchIndex for s in ast.walk(cond) if isinstance(s, ast.Subscript)):
-                    continue
-                inst = 'replica counted when `%s`' % unparse(cond)
-                ctx.tick()
-                okc = False
-                if isinstance(cond, ast.Compare) and len(cond.ops) == 1:
-                    l, r, op = cond.left, cond.comparators[0], cond.ops[0]
-                    l_is_match = isinstance(l, ast.Subscript) and P.self_attr(l.value, f.self_name) == R.matchIndex
-                    if (l_is_match and isinstance(op, (ast.GtE, ast.Gt))) or (not l_is_match and isinstance(op, (ast.LtE, ast.Lt))):
-                        okc = True
-                if okc:
-                    ctx.ok(inst, f.loc(cond), 'a replica counts only if its matchIndex reaches the candidate')
-                else:
-                    ctx.violation('%s:replica-count-condition' % f.qualname, f.loc(cond),
-                                  'a voter is counted towards the commit quorum under `%s`, which does not require matchIndex >= candidate' % unparse(cond), instance=inst)
+        info = _counter_info(ctx, f, counter, cmpn)
+        if info is None:
+            continue
+        cond = info[4].get('cond')
+        if cond is None:
+            continue
+        var = info[4].get('var')
+        varnames = set(x.id for x in ast.walk(var) if isinstance(x, ast.Name)) if var is not None else set()
+        it = info[4].get('iter')
+        iter_is_match = it is not None and any(P.self_attr(x, f.self_name) == R.matchIndex for x in ast.walk(it))
+
+        def is_match_term(e):
+            if isinstance(e, ast.Subscript) and P.self_attr(e.value, f.self_name) == R.matchIndex:
+                return True
+            return iter_is_match and isinstance(e, ast.Name) and e.id in varnames
+        if not any(is_match_term(x) for x in ast.walk(cond)):
+            continue
+        inst = 'replica counted when `%s`' % unparse(cond)
+        ctx.tick()
+        okc = False
+        if isinstance(cond, ast.Compare) and len(cond.ops) == 1:
+            l, r, op = cond.left, cond.comparators[0], cond.ops[0]
+            l_is_match = is_match_term(l)
+            if (l_is_match and isinstance(op, (ast.GtE, ast.Gt))) or (not l_is_match and isinstance(op, (ast.LtE, ast.Lt))):
+                okc = True
+        if okc:
+            ctx.ok(inst, f.loc(cond), 'a replica counts only if its matchIndex reaches the candidate')
+        else:
+            ctx.violation('%s:replica-count-condition' % f.qualname, f.loc(cond),
+                          'a voter is counted towards the commit quorum under `%s`, which does not require matchIndex >= candidate' % unparse(cond), instance=inst)
     ctx.expect_min(2)
 
 
